@@ -9,7 +9,7 @@ Independent of the code under test.
 from hypothesis import strategies as st
 
 from vlib.ref import c12_paths as ref
-from vlib.ref.c12_paths import KINDS, PHASES, SITES, State, accepted, Broken
+from vlib.ref.c12_paths import KINDS, PHASES, SITES, State, accepted, unaccepted, Broken
 
 STR_VALUES = ['d1', 'd2', 'f', 'd', '1', 'd1/d2', 'w1', 'a b', 'x', 'g', 'n', '/d2', '/']
 READ_SITES_ANY = ['contents_of', 'dir_contents_of', 'existing', 'exe']
@@ -605,7 +605,7 @@ class Gen:
             if cls == 'bad-option' or cls == 'here':
                 site = self.site_for_phase()
                 acc = accepted(site, ph)
-                bad = [k for k in KINDS if k not in acc] if cls == 'bad-option' else ['here']
+                bad = unaccepted(acc, KINDS) if cls == 'bad-option' else ['here']
                 if not bad:
                     return None
                 k = draw(st.sampled_from(bad))
@@ -616,7 +616,7 @@ class Gen:
             if cls == 'bad-symbol':
                 site = self.site_for_phase()
                 acc = accepted(site, ph)
-                bad = [k for k in KINDS + ['abs', 'here'] if k not in acc and not (k == 'here' and 'abs' in acc)]
+                bad = [k for k in unaccepted(acc, KINDS + ['abs']) + ['here'] if not (k == 'here' and 'abs' in acc)]
                 if not bad:
                     return None
                 k = draw(st.sampled_from(bad))
